@@ -187,4 +187,31 @@ theorem wfExpr_col (e : Expr) (a : String) (he : wfExpr e = true) (ha : rawC (b 
 theorem wfExpr_col_inner {e : Expr} {a : String} (h : wfExpr (.col e a) = true) : wfExpr e = true := by
   simp [wfExpr] at h; exact h.1
 
+/-! ### names: non-empty barewords -/
+/-- a non-empty bareword -/
+def WordS (s : String) : Prop := allWord (b s) = true ∧ b s ≠ []
+
+theorem WordS.app {s t : String} (hs : WordS s) (ht : allWord (b t) = true) : WordS (s ++ t) := by
+  refine ⟨by rw [b_append]; exact allWord_append hs.1 ht, ?_⟩
+  rw [b_append]
+  intro h
+  exact hs.2 (List.append_eq_nil_iff.mp h).1
+
+theorem WordS.nat {s : String} (hs : WordS s) (n : Nat) : WordS (s ++ toString n) := hs.app (allWord_natDigits n)
+
+theorem WordS.isRawE {s : String} (h : WordS s) : rawE (b s) = true := rawE_word h.1
+theorem WordS.isRawC {s : String} (h : WordS s) : rawC (b s) = true := rawC_word h.1 h.2
+theorem kw_as : rawC (b " as ") = true := by decide +kernel
+theorem WordS.asAlias {s : String} (h : WordS s) : rawC (b " as " ++ b s) = true := rawC_append kw_as h.isRawC
+theorem WordS.withAlias {s : String} (h : WordS s) : rawC (b (Alias.named s).text ++ b " as (") = true :=
+  rawC_append h.isRawC kw_asOpen
+
+theorem wfExpr_raw_word {s : String} (h : WordS s) : wfExpr (.raw s) = true := by
+  simp only [wfExpr]; exact h.isRawE
+theorem wfExpr_simpleCol {n a : String} (hn : WordS n) (ha : WordS a) : wfExpr (simpleCol n a) = true :=
+  wfExpr_col _ _ (wfExpr_raw_word hn) ha.asAlias
+theorem wfExpr_withRef_word {s : String} (h : WordS s) : wfExpr (.withRef (.named s)) = true := by
+  simp only [wfExpr, Alias.text]; exact h.isRawE
+
+
 end Qryn.Sql
